@@ -7,6 +7,7 @@ import (
 	"os"
 	"runtime"
 	"runtime/debug"
+	"runtime/pprof"
 	"strconv"
 	"strings"
 	"sync"
@@ -60,6 +61,11 @@ func Parse() *Cfg {
 		os.Exit(2)
 	}
 	c.J = j
+	if pf := os.Getenv("VERIF_CPUPROFILE"); pf != "" { // development aid
+		if f, err := os.Create(pf); err == nil {
+			pprof.StartCPUProfile(f)
+		}
+	}
 	return c
 }
 
@@ -161,6 +167,7 @@ func Catch(f func()) (p any, stack string) {
 
 // Finish writes the result and exits 0 (the parent decides the verdict from the file).
 func Finish(c *Cfg, r *report.Result, start time.Time) {
+	pprof.StopCPUProfile()
 	r.Observe("wall_s", time.Since(start).Seconds())
 	r.Observe("variant", c.Variant)
 	if c.Out != "" {
